@@ -49,6 +49,15 @@ static inline SetDimension Dimension_asSetDimension(const Dimension *d)
 { __CPROVER_assert(d->kind == K_DIM && d->dtype == DimensionType_Set, "asSetDimension of a set descriptor"); return *d; }
 static inline SampledDimension Dimension_asSampledDimension(const Dimension *d)
 { __CPROVER_assert(d->kind == K_DIM && d->dtype == DimensionType_Sample, "asSampledDimension of a sampled descriptor"); return *d; }
+/* whether a range descriptor is an alias of its array: arbitrary - every range descriptor is validated, alias or not */
+_Bool nondet_bool(void);
+static inline bool RangeDimension_alias(const Ent *d)
+{ return nondet_bool(); }
+/* the rewriter's variable table is flat: a method on the re-declared local d may be resolved under the type of a later declaration */
+static inline bool SampledDimension_alias(const Ent *d)
+{ return nondet_bool(); }
+static inline bool SetDimension_alias(const Ent *d)
+{ return nondet_bool(); }
 static inline Result c19_validated(const Ent *e, ent_kind k)
 { __CPROVER_assert(e->kind == k, "the validator overload matches the entity kind"); gh_validated[k]++; gh_results_made++; Result r; r.parts = 1; return r; }
 static inline Result validate_Block(const Ent *e)
